@@ -159,7 +159,7 @@ def one_tree(tspec, acc, rnd, sample=False, forced=None):
         hint = tspec.pop("_mp_hint", None)
         big = tspec.pop("_big", 0) >= 1000
         mp_rel = forced["mp"] if forced else (hint if hint and rnd.random() < 0.7 else rnd.choice(dirs) if rnd.random() < 0.35 else "")
-        if big and not forced and rnd.random() < 0.8:
+        if big and not forced:
             mp_rel = ""
         if big and not mp_rel:
             acc.count("trees_with_1000+_import_statements")
